@@ -9,7 +9,7 @@ from pgfmc.model import oracle as O
 ID = "C19"
 LEVEL = "exploration"
 RULE = ("grid: well-scaled smooth spec x start x scaling {none, 2 custom} x derivative {gradient, Jacobian, Hessian} x EVERY (row, column) x "
-        "error magnitude {3, 30, 1e4, -5e5} x (deriv_tol + rtol*|value| + finite-difference error bound) expressed in internal units; plus the "
+        "error magnitude {3, 30, 1e4, -5e5, entry omitted from the sparsity pattern} x (deriv_tol + rtol*|value| + finite-difference error bound) expressed in internal units; plus the "
         "uncorrupted problem (must pass, and the solve after the check must equal the solve without check); oracle: DerivError with "
         "invalid_indices == [row] and col_index == column; distinct = (spec, start, scaling, derivative, row, column, magnitude)")
 ASSUMPTIONS = ["'well-scaled' is decided by the oracle: the reference's own forward-difference error at the start must be below 0.3*deriv_tol for every entry, otherwise the case is counted as out-of-class",
@@ -49,6 +49,13 @@ def cases(tier, seed):
                     for j in range(n):
                         for mg in MAGS:
                             out.append(dict(base, which="hess", i=i, j=j, mag=mg))
+                # entries omitted from the sparsity pattern of the returned matrix (wrong by their whole value)
+                for i in range(m):
+                    for j in range(n):
+                        out.append(dict(base, which="jac", i=i, j=j, mag="drop"))
+                for i in range(n):
+                    for j in range(n):
+                        out.append(dict(base, which="hess", i=i, j=j, mag="drop"))
     return out
 
 
@@ -77,6 +84,9 @@ def make_corrupt(inner, which, i, j, delta):
 
         def _add(self, M):
             M = M.tocoo()
+            if delta == "drop":
+                keep = ~((M.row == i) & (M.col == j))
+                return sps.coo_matrix((M.data[keep], (M.row[keep], M.col[keep])), shape=M.shape)
             return sps.coo_matrix((np.concatenate([M.data, [delta]]), (np.concatenate([M.row, [i]]), np.concatenate([M.col, [j]]))),
                                   shape=M.shape)
 
@@ -161,9 +171,15 @@ def run_case(case):
         true = T.jac(xi)[i, j]; expo = cw[i] - vw[j]
     else:
         true = T.hess(xi, yi)[i, j]; expo = ow - vw[i] - vw[j]
-    d_int = mag * (atol + rtol * abs(true) + fdm)
-    d_int = d_int * (1.0 + rtol * abs(mag))  # rtol applies to the approximated value too
-    delta_user = float(np.ldexp(d_int, -int(expo)))
+    if mag == "drop":
+        d_int = abs(true)
+        if d_int <= 3.0 * (atol + rtol * abs(true) + fdm):
+            return {"outcome": "dropped-entry-below-tolerance", "key": None, "violations": [], "stats": {"fd": worst}}
+        delta_user = "drop"
+    else:
+        d_int = mag * (atol + rtol * abs(true) + fdm)
+        d_int = d_int * (1.0 + rtol * abs(mag))  # rtol applies to the approximated value too
+        delta_user = float(np.ldexp(d_int, -int(expo)))
     cp = make_corrupt(prob, which, i, j, delta_user)
     rec = run_solve(cp, params, spec["x0"], y0)
     if rec.exc is None:
